@@ -1094,8 +1094,25 @@ def chain_moderate(b, X, ctx, spec=None, bound=6.0):
                     return False
             return True
         if spec["t"] == "multiscale":
-            # stage 0 sees the whole input; later stages see what earlier ones emit (checked on stage 0 only, plus finiteness)
-            return chain_moderate(b.parts[0], X, ctx, spec["parts"][0], bound) if b.parts else True
+            # stage k sees what stage k-1 handed on: the trailing half (rounded down) along split_dim
+            if not b.parts:
+                return True
+            sd = spec.get("split_dim", 1)
+            z = X
+            for k, (p, ps) in enumerate(zip(b.parts, spec["parts"])):
+                if not chain_moderate(p, z, ctx, ps, bound):
+                    return False
+                if k == len(b.parts) - 1:
+                    break
+                try:
+                    z, _ = p.module(z, ctx)
+                    size = z.shape[sd]
+                    z = z.narrow(sd, (size + 1) // 2, size - (size + 1) // 2)
+                except Exception:
+                    return True
+                if not bool(torch.isfinite(z).all()):
+                    return False
+            return True
         if spec["t"] == "compositecdf" and not _compositecdf_ok(b.module, X):
             return False
         if spec["t"] == "inverse" and spec["of"]["t"] == "compositecdf" and not _compositecdf_ok(b.module._transform, X, True):
